@@ -39,7 +39,7 @@ vars == <<l, run, now, meta, eps, sendIdx, app, infl, sk, pairs, last, viol, cov
 RuleNames == {
     "C01.NoGarbage", "C01.SegStable", "C01.SegContiguous", "C01.ReadIsPrefix", "C01.ReadWithinWritten",
     "C02.IdleWrite", "C02.IdleShutdown", "C02.NoStall", "C02.Silence", "C02.CompletesOk", "C02.ReaderWoken", "C02.InWindowTaken",
-    "C03.FlushHonest", "C03.EofOnlyAfterFin", "C03.SuccessMeansDelivered", "C03.AbortSurfaces", "C03.NoSuccessAfterAbort", "C03.FinInSequence",
+    "C03.FlushHonest", "C03.EofOnlyAfterFin", "C03.SuccessMeansDelivered", "C03.AbortSurfaces", "C03.NoSuccessAfterAbort", "C03.FinInSequence", "C03.EofAfterAllBytes",
     "C04.AckExact", "C04.AckMonotone", "C04.SackExact", "C04.WindowHonest", "C04.WithinBuffer",
     "C04.ConsumeExact", "C04.OutOfOrderIsAhead", "C04.DuplicateIsOld", "C04.AlreadyPresentIsHeld",
     "C05.WindowRespected", "C05.ZeroWindowSilence", "C05.SlowStartBound", "C05.OneSegmentAfterRto",
@@ -453,10 +453,14 @@ Disp(r) ==
                     \* for a retransmission": the next in-order packet, no larger than the window last advertised, with nothing
                     \* held out of order, is not turned away.  (The window was advertised together with an acknowledgement
                     \* number: what has been taken in since that emission counts against it.)
+                    \* (Not judged once the application has dropped the read half: nothing is handed over any more, the
+                    \*  packets are parked in the reassembly queue whose capacity is counted in packets, and a peer that
+                    \*  sends tiny packets fills it below the advertised byte count - DESIGN.md 0.3, observations.)
                     <<"C04.WindowHonest", w = "unavailable" /\ s = Nx(e.rnxt, 1) /\ DOMAIN e.held = {} /\ e.txCount > 0
-                                          /\ plen > 0 /\ e.unackedB + plen <= e.lastWnd, FALSE>>,
+                                          /\ plen > 0 /\ e.unackedB + plen <= e.lastWnd /\ ~e.rDropped, FALSE>>,
                     <<"C02.InWindowTaken", w \in {"unavailable", "consumed"} /\ s = Nx(e.rnxt, 1) /\ DOMAIN e.held = {}
-                                           /\ e.txCount > 0 /\ plen > 0 /\ e.unackedB + plen <= e.lastWnd, w # "unavailable">>,
+                                           /\ e.txCount > 0 /\ plen > 0 /\ e.unackedB + plen <= e.lastWnd /\ ~e.rDropped,
+                                           w # "unavailable">>,
                     <<"C17.PeerFinInOrder", w = "fin_accepted", R_C17_PeerFinInOrder(e, s)>>,
                     \* C17 "until the initiator's first packet arrives": while the endpoint waits for the packet that
                     \* acknowledges its SYN-ACK, a packet that does not is dropped as a whole - its payload is not taken in
@@ -473,7 +477,13 @@ Disp(r) ==
                 \* C02 "blocked readers/writers are always woken when their condition changes": end-of-stream became
                 \* readable while a read was waiting
                 e2 == [e1 EXCEPT !.eofDue = IF w = "fin_accepted" /\ e.readPend THEN l ELSE @,
-                                 !.lastGainAt = IF w \in {"consumed", "out_of_order", "fin_accepted"} THEN now ELSE @]
+                                 \* C08 "whatever the peer does": payload taken in after the read half was dropped only
+                                 \* counts as progress while the reassembly queue can still hold it - a peer that keeps
+                                 \* sending must not keep an abandoned connection alive for ever
+                                 !.orphanPk = IF e.rDropped /\ w \in {"consumed", "out_of_order"} THEN @ + 1 ELSE @,
+                                 !.lastGainAt = IF w = "fin_accepted"
+                                                   \/ (w \in {"consumed", "out_of_order"} /\ (~e.rDropped \/ e.orphanPk < Slots(e)))
+                                                THEN now ELSE @]
                 \* known finding D1b, second shape: the probe was still on its way when the sender cut its bytes again
                 \* under the same number, and is taken in now - with a length the sender no longer has for that number
                 pk == e.cfg.peer
@@ -566,6 +576,15 @@ Ret(r) ==
                      [] r.op = "read" /\ r.res \in {"eof", "err"} ->
                           /\ JudgeCtx(k, okc \cup {
                                <<"C03.EofOnlyAfterFin", r.res = "eof", R_C03_EofOnlyAfterFin(e)>>,
+                               \* "... only after every byte that preceded the peer's FIN": with both applications in view,
+                               \* a clean end-of-stream means that everything the peer's application wrote has been read
+                               \* (when the peer closed on its own initiative: a FIN that only answers ours is sent at once by
+                               \*  this implementation, without the bytes its application had queued - DESIGN.md 0.3, observations)
+                               \* (and did not abort: an aborting connection tells ITS application so and sends a FIN numbered
+                               \*  after what it had transmitted)
+                               <<"C03.EofAfterAllBytes", r.res = "eof" /\ hasPeer /\ eps[pk].fin.own /\ ~AbortedWithError(eps[pk])
+                                                         /\ eps[pk].dying \in {"", "ok"},
+                                                         ~hasPeer \/ e.rd >= eps[pk].wr>>,
                                <<"C03.SuccessMeansDelivered", hasPeer, ~hasPeer \/ R_C03_SuccessMeansDelivered(e, eps[pk].flushMark)>> }, dctx)
                           /\ eps' = [eps EXCEPT ![k] = e]
                      [] r.op = "write" /\ r.res = "ok" ->
